@@ -1523,3 +1523,46 @@ def fill_commit_rule(rep, F, scope):
                 if not hir_must(tail, consumes, known):
                     rep.violation("FILL-commit", "%s|%s" % (F.key(fid), X), "%s: the collection `%s`, created and filled inside one iteration, is not handed on on every path to the end of that iteration (a branch that does not test `%s` itself skips it): what the iteration collected there is silently dropped from the result" % (F.key(fid), X, X), {"file": fn.get("file"), "line": st[1]})
     return n
+
+
+# ---- the size model of a send-all value measures the quantity that is emitted -----------------------------------------------------
+def sib_qty_rule(rep, F):
+    """SIB-qty: model and builder agree that an asset's quantity is the sum over the spent UTxOs"""
+    rep.rule("SIB-qty", "AssetCategorizer::build_value (what is emitted) hands MultiAsset::set_asset a quantity accumulated with BigNum::checked_add over the spent UTxOs, and AssetsCalculator::calc_value_size (what min ADA, size and fee are computed from) measures get_coin_size of a quantity accumulated the same way - never of a single UTxO's amount, and never combines widths with max / min: the width of a sum can exceed the width of every addend (20 + 20, 200 + 200), and each missing byte is coins_per_byte lovelace of minimum ADA and a fee coefficient of fee")
+    import fieldflow as _ff
+    b = F.by_key("AssetCategorizer::build_value")
+    m = F.by_key("AssetsCalculator::calc_value_size")
+    if len(b) != 1 or len(m) != 1:
+        rep.lost("build_value / calc_value_size not found")
+        return
+    is_sum = lambda o: any(x.startswith("call:") and x.split("@")[0].endswith("BigNum::checked_add") for x in o)
+    # real side
+    fn, org = F.fns[b[0]], _ff.Origins(F, b[0])
+    sets = [c for c in F.calls(b[0]) if (c.to or "").endswith("MultiAsset::set_asset")]
+    if not sets:
+        rep.lost("build_value no longer calls MultiAsset::set_asset")
+    for c in sets:
+        rep.inst("SIB-qty")
+        if not is_sum(org.of_operand(fn["bbs"][c.bb]["t"][3][-1])):
+            rep.violation("SIB-qty", "build_value|not-summed", "build_value emits a quantity that is not accumulated with checked_add over the spent UTxOs", {})
+    # model side
+    fn, org = F.fns[m[0]], _ff.Origins(F, m[0])
+    gcs = [c for c in F.calls(m[0]) if (c.to or "").endswith("CborCalculator::get_coin_size")]
+    if not gcs:
+        rep.lost("calc_value_size no longer calls get_coin_size")
+    n_dyn = 0
+    for c in gcs:
+        o = org.of_operand(fn["bbs"][c.bb]["t"][3][0])
+        if not any(x.startswith("call:") or x.startswith("field:") or x.startswith("arg:") for x in o):
+            continue  # a constant (the empty quantity)
+        if not any("assets_amounts" in x or "next" in x for x in o) and not is_sum(o):
+            continue
+        n_dyn += 1
+        rep.inst("SIB-qty")
+        if not is_sum(o):
+            rep.violation("SIB-qty", "calc_value_size|addend-width", "calc_value_size measures get_coin_size of a single UTxO's amount instead of the accumulated quantity: build_value emits the sum, whose CBOR width can be larger than that of every addend - the output gets coins_per_byte lovelace too little minimum ADA per missing byte and the fee is computed for a smaller transaction", {"line": c.line})
+    comb = [c.to for c in F.calls(m[0]) if re.search(r"(Ord::max|Ord::min|cmp::max|cmp::min)$", c.to or "")]
+    if comb:
+        rep.violation("SIB-qty", "calc_value_size|width-max", "calc_value_size combines widths with %s: the width of the emitted sum is not the maximum of the widths of its addends" % ", ".join(H_short(x) for x in comb), {})
+    if n_dyn == 0 and not comb:
+        rep.lost("calc_value_size: no quantity-dependent get_coin_size call recognised")
